@@ -14,7 +14,7 @@
 (*   <<"CONSUMED", lines, "FAILS", n, ...>>                                *)
 (* is printed when every line has been consumed.                           *)
 (***************************************************************************)
-EXTENDS Rfc1951, DeflateParams, DeflateContract, InflateContract, Checksums, CApi, DeflateLZRules, Json, IOUtils
+EXTENDS Rfc1951, DeflateParams, DeflateContract, InflateContract, Checksums, CApi, DeflateLZRules, DeflateHuff, Json, IOUtils
 
 Rec == ndJsonDeserialize(IOEnv.TRACE)
 
@@ -613,11 +613,57 @@ EvBBEnd ==
   /\ Keep(<<acc, cs, ip, cid, dc, ds, ss, cc, seen>>)
 
 -----------------------------------------------------------------------------
+(* Huffman code construction of the compressor through the verif_huffman    *)
+(* hook (C10, C01/C02): the rules of DeflateHuff.tla on what the real       *)
+(* optimize_table returns; its transcription is compared for drift only.    *)
+EvHuff ==
+  /\ Is("huff")
+  /\ LET e == E
+         fails == HfRules(e.counts, e.sizes, e.codes, e.limit)
+     IN /\ Report(fails, 5)
+        /\ IF e.model /\ fails = <<>> /\ HfModelSizes(e.counts, e.limit) # e.sizes
+             THEN PrintT(<<"DRIFT", "huffman_sizes", CaseId, e.counts, e.limit, e.sizes>>) ELSE TRUE
+        /\ IF fails = <<>> /\ ~HfTidy(e.counts, e.sizes)
+             THEN PrintT(<<"NOTE", "huffman_code_not_tidy", CaseId, e.counts, e.limit, e.sizes>>) ELSE TRUE
+  /\ l' = l + 1
+  /\ Keep(<<acc, cs, ip, cid, dc, ds, ss, cc, seen>>)
+
+\* code lengths of symbols 0..n-1 in an acceptor table (count / symbol form)
+TableLens(t, n) ==
+  LET RECURSIVE st(_)
+      st(len) == IF len <= 1 THEN 0 ELSE st(len - 1) + t.cnt[len - 1]
+  IN [i \in 1..n |->
+        LET ls == {len \in 1..15 : \E k \in (st(len) + 1)..(st(len) + t.cnt[len]) : t.sym[k] = i - 1}
+        IN IF ls = {} THEN 0 ELSE CHOOSE len \in ls : TRUE]
+
+\* one dynamic block written by start_dynamic_block for given counts, followed by every used
+\* literal and the end-of-block code: the stream event before it ran the acceptor on it
+EvHuffBlock ==
+  /\ Is("huff_block")
+  /\ LET e == E
+         z == Rec[cs].z
+         ok == acc.ph = "done" /\ acc.endbyte = Len(z)
+         nocodes == [i \in 1..288 |-> 0]
+         fails ==
+              If(ok, "huff_block_is_a_valid_stream_decoding_every_used_literal")
+           \o If(ok => /\ TableLens(acc.tl, acc.hlit) = SubSeq(e.lsizes, 1, acc.hlit)
+                       /\ \A i \in (acc.hlit + 1)..288 : e.lsizes[i] = 0
+                       /\ TableLens(acc.td, acc.hdist) = SubSeq(e.dsizes, 1, acc.hdist)
+                       /\ \A i \in (acc.hdist + 1)..32 : e.dsizes[i] = 0,
+                 "huff_header_declares_exactly_the_code_sizes_in_use")
+           \o SelectSeq(HfRules(e.lit_counts, e.lsizes, nocodes, 15) \o HfRules(e.dist_counts, e.dsizes, nocodes, 15),
+                        LAMBDA x : x # "huff_codes_are_bit_reversed_canonical")
+     IN Report(fails, 10)
+  /\ l' = l + 1
+  /\ Keep(<<acc, cs, ip, cid, dc, ds, ss, cc, seen>>)
+
+-----------------------------------------------------------------------------
 Known == {"case", "input", "stream", "compressed", "roundtrip", "panic", "hang", "crash",
           "comp_new", "comp", "flushpoint", "defl", "defl_end",
           "dnew", "dec", "dec_end", "equiv", "state_same", "vec", "sliceiter", "inf_new", "inf", "inf_end", "equiv_s", "cksum",
           "c_init", "c_call", "c_reset", "c_end", "c_misuse", "c_compress", "c_compressed_valid",
-          "c_uncompress", "c_mem_to_mem", "c_mem_to_heap", "c_bound", "c_tinfl", "c_tdefl", "pair", "bb", "bb_end", "note", "gen_expect", "zhdr"}
+          "c_uncompress", "c_mem_to_mem", "c_mem_to_heap", "c_bound", "c_tinfl", "c_tdefl", "pair", "bb", "bb_end", "note", "gen_expect", "zhdr",
+          "huff", "huff_block"}
 
 \* an event the spec has no action for is itself a failure (never silently skipped)
 EvUnknown ==
@@ -633,7 +679,7 @@ Next == \/ EvCase \/ EvInput \/ EvStream \/ AccRun \/ EvStreamDone
         \/ EvInfNew \/ EvInf \/ EvInfEnd \/ EvEquivS \/ EvCksum
         \/ EvCInit \/ EvCCall \/ EvCReset \/ EvCEnd \/ EvCMisuse \/ EvCCompress \/ EvCCompressedValid
         \/ EvCUncompress \/ EvCMemToMem \/ EvCMemToHeap \/ EvCBound \/ EvCTinfl \/ EvCTdefl
-        \/ EvPair \/ EvBB \/ EvBBEnd \/ EvNote \/ EvGenExpect \/ EvZHdr
+        \/ EvPair \/ EvBB \/ EvBBEnd \/ EvNote \/ EvGenExpect \/ EvZHdr \/ EvHuff \/ EvHuffBlock
         \/ EvUnknown
 
 Spec == Init /\ [][Next]_vars
